@@ -74,6 +74,7 @@ class KGen:
 
     def __init__(self, r):
         self.r = r
+        self.no_norm = 0      # > 0 below a ModelKernel: the mapped point may be the zero vector (0/0 in a normalised linear kernel)
 
     def leaf(self, dim, allow_exp=True):
         r = self.r
@@ -101,7 +102,7 @@ class KGen:
         if depth == 0 or r.chance(1, 4):
             return self.leaf(dim)
         x = r.below(100)
-        if x < 18:
+        if x < 18 and not self.no_norm:
             t, i = self.gen(dim, depth - 1)
             return ["norm"] + t, dict(exact=False, M=Fraction(1), f=0, kinds=i["kinds"] | {"norm"}, depth=i["depth"] + 1)
         if x < 34:
@@ -141,6 +142,32 @@ class KGen:
                 toks += t; M *= i["M"]; f += i["f"]
             return toks, dict(exact=all(i["exact"] for _, i in subs), M=M, f=f,
                               kinds=set().union(*[i["kinds"] for _, i in subs]) | {"prod"}, depth=1 + max(i["depth"] for _, i in subs))
+        if x < 86:
+            # ModelKernel over a LinearModel x -> A x + b (small integer matrix)
+            rdim = r.choice([1, 2, 3])
+            A = [[r.range(-1, 1) for _ in range(dim)] for _ in range(rdim)]
+            bvec = [r.range(-1, 1) for _ in range(rdim)]
+            save = self.COORD
+            self.COORD = dim * save + 1          # bound on |A x + b|
+            self.no_norm += 1
+            t, i = self.gen(rdim, depth - 1)
+            self.no_norm -= 1
+            self.COORD = save
+            toks = ["model", str(rdim), str(dim)] + [str(v) for row in A for v in row] + [str(v) for v in bvec] + t
+            return toks, dict(exact=i["exact"], M=i["M"], f=i["f"], kinds=i["kinds"] | {"model"}, depth=i["depth"] + 1)
+        if x < 92 and dim >= 2:
+            # the real SubrangeKernel class (weighted sum of sub-range wrappers, weights via setParameterVector)
+            n = r.choice([1, 2, 2, 3])
+            ps = [r.choice([Fraction(0), Fraction(0), Fraction(1), Fraction(-1)]) for _ in range(n - 1)]
+            toks = ["subk", str(n)] + [dy(p) for p in ps]
+            subs = []
+            for _ in range(n):
+                a = r.below(dim - 1); b = r.range(a + 1, dim)
+                t, i = self.gen(b - a, depth - 1)
+                toks += [str(a), str(b)] + t; subs.append(i)
+            ex = all(p == 0 for p in ps) and is_pow2(n) and all(i["exact"] for i in subs)
+            return toks, dict(exact=ex, M=max(i["M"] for i in subs), f=max(i["f"] for i in subs) + n.bit_length(),
+                              kinds=set().union(*[i["kinds"] for i in subs]) | {"subk", "sub"}, depth=1 + max(i["depth"] for i in subs))
         if dim >= 2:
             a = r.below(dim - 1); b = r.range(a + 1, dim)
             if a == 0 and b == dim: a = 1 if dim > 1 and r.chance(1, 2) else 0
@@ -217,9 +244,30 @@ def gen_case(ctx, r, maxn, all_partitions=False):
     n1 = r.range(1, n - 1)
     p1, p2 = rand_partition(r, n1), rand_partition(r, n - n1)
     ops.append(f"mixed {len(p1)} " + " ".join(map(str, p1 + p2)))
+    # PointSetKernel over the same kernel: point sets of sizes 1/2/4 (exact means), evaluated on all paths
+    psops = []
+    if r.chance(1, 2) and "norm" not in info["kinds"]:
+        sizes, left = [], n
+        while left > 0 and len(sizes) < 4:
+            # inexact kernel values: singleton sets only (remora's summation order is not modelled)
+            sz = r.choice([q for q in (1, 2, 4) if q <= left]) if info["exact"] else 1
+            sizes.append(sz); left -= sz
+        m = len(sizes)
+        psops.append("psets " + " ".join(map(str, sizes)))
+        psops.append(f"ps single {r.below(m)} {r.below(m)}")
+        a = r.below(m); b = r.range(a + 1, m); c = r.below(m); d = r.range(c + 1, m)
+        psops += [f"ps block {a} {b} {c} {d}", f"ps sblock {a} {b} {c} {d}", f"ps fdist {r.below(m)} {r.below(m)}"]
+        psops.append(f"ps gram {dy(reg)} " + " ".join(map(str, rand_partition(r, m))))
+        psops.append(f"ps gram 0 " + " ".join(map(str, rand_partition(r, m))))
+        info = dict(info, f=info["f"] + 4, kinds=info["kinds"] | {"pointset"})
+        ops += psops
     # numerical derivative oracle on the real code (finite differences); last, because it resets parameters
     a = r.below(n); b = r.range(a + 1, min(n, a + 3)); c = r.below(n); d = r.range(c + 1, min(n, c + 3))
     ops.append(f"dcheck {a} {b} {c} {d} " + " ".join(str(r.range(-2, 2)) for _ in range((b - a) * (d - c))))
+    if psops:
+        m = len(psops[0].split()) - 1
+        a = r.below(m); b = r.range(a + 1, m); c = r.below(m); d = r.range(c + 1, m)
+        ops.append(f"ps dcheck {a} {b} {c} {d} " + " ".join(str(r.range(-2, 2)) for _ in range((b - a) * (d - c))))
     info = dict(info, n=n, dim=dim, parts=len(parts), exact_case=exact_ok(info))
     return ops, info
 
@@ -274,7 +322,7 @@ def gen_discrete_case(r, all_partitions=False):
 # ----------------------------------------------------------------------------- classification
 def kinds_of(ops):
     toks = ops[0].split() if ops else []
-    names = {"lin", "poly", "mono", "gauss", "ard", "norm", "scaled", "wsum", "wsump", "prod", "sub", "disc"}
+    names = {"lin", "poly", "mono", "gauss", "ard", "norm", "scaled", "wsum", "wsump", "prod", "sub", "disc", "model", "subk"}
     return sorted({t for t in toks[1:] if t in names})
 
 
@@ -327,7 +375,7 @@ def load_corpus():
     return out
 
 
-SPARSE_UNSUPPORTED = {"ard", "norm", "sub"}     # do not compile for CompressedRealVector (see harness/c05.cpp)
+SPARSE_UNSUPPORTED = {"ard", "norm", "sub", "model", "subk"}     # do not compile for CompressedRealVector (see harness/c05.cpp)
 
 
 def harness_name():
@@ -402,7 +450,7 @@ def run(ctx):
     for inp in ("dense", "sparse"):
         sel = [(o, i) for o, i in cases if inp == "dense" or not (set(i["kinds"]) & SPARSE_UNSUPPORTED)]
         if inp == "sparse":      # weightedInputDerivative needs a dense batch type
-            sel = [([x for x in o if not x.startswith("ideriv")], i) for o, i in sel]
+            sel = [([x for x in o if not x.startswith(("ideriv", "ps ", "psets"))], i) for o, i in sel]
         ctx.cov[f"cases_{inp}"] = len(sel)
         core.correspond(ctx, f"K-C05[{inp},float]", [o for o, _ in sel], [exe, inp], [drv, "float"], classify, keep_prefix=2, env=env)
         ex = [o for o, i in sel if i["exact_case"]]
